@@ -7,6 +7,8 @@ tables are fully populated costs exactly the same I/O for the same request as on
 """
 from __future__ import annotations
 
+import io
+
 import itertools
 
 from mc import bootstrap
@@ -304,6 +306,9 @@ def run_shard(shard, ctx):
         return
     # one case builds both the nearly empty and the densely allocated image of the configuration
     run_case({"fmt": shard["fmt"], "scale": shard["scale"], "place": shard["place"], "density": "dense"}, ctx)
+    if shard["place"] == "low" and shard["scale"] in ("small", "4g"):
+        # the same through an unbuffered handle
+        run_case({"fmt": shard["fmt"], "scale": shard["scale"], "place": shard["place"], "density": "dense", "rawio": True}, ctx)
 
 
 def _layout(fmt, total, density):
@@ -531,7 +536,7 @@ def run_case(case, ctx):
             M = img.meta_bytes
             payload = sum(ln for off, kind, pl, ln in img.ext if kind == 1)
             try:
-                stream = opener(fh)
+                stream = opener(_RawIO(fh) if case.get("rawio") else fh)
             except Exception as e:
                 ctx.violation(case, {"subject": f"{fmt}.open", "kind": "exception", "exc": type(e).__name__, "place": place},
                               {"exception": repr(e)[:300]})
@@ -618,6 +623,31 @@ def run_case(case, ctx):
                     ctx.violation(case, {"subject": f"{fmt}.io", "kind": "io-depends-on-allocation", "request": name},
                                   {"sparse(open,read,calls)": r["sparse"][0], "dense(open,read,calls)": r["dense"][0]})
                     return
+
+
+class _RawIO(io.RawIOBase):
+    """The metering file behind an unbuffered-handle interface (io.RawIOBase, like a file opened with buffering=0 or a stream
+    of an outer container): a reader that puts a buffer of its own in front of such handles pays for it here."""
+
+    def __init__(self, inner):
+        self._inner = inner
+
+    def readable(self):
+        return True
+
+    def seekable(self):
+        return True
+
+    def readinto(self, b):
+        data = self._inner.read(len(b))
+        b[:len(data)] = data
+        return len(data)
+
+    def seek(self, off, whence=0):
+        return self._inner.seek(off, whence)
+
+    def tell(self):
+        return self._inner.tell()
 
 
 def _overlapping(img, off, n):
